@@ -44,7 +44,7 @@ var tmpDir string
 func main() {
 	o := hlib.ParseFlags()
 	r := hlib.NewResult("C15", o)
-	r.Rule = "round 3: upstream/rewritten responses carry RCODEs 0..4095 (extended ones with an OPT record) and, rarely, values beyond " +
+	r.Rule = "round 4 adds: full (write(2) failing with ENOSPC after the record was encoded, via a symbolic link flipping between /dev/full and a regular file under concurrent writers) and wired (the real cmd builder up to initDNS on generated YAML + environment: query-log file switch, QUERYLOG_PATH, several server groups with and without profiles, device-ID wildcards, linked addresses, protocols, access, cache; requests through dnssvc.Service.Handle; response, bill and the exact appended bytes vs the model). round 3: upstream/rewritten responses carry RCODEs 0..4095 (extended ones with an OPT record) and, rarely, values beyond " +
 		"the wire format; answer sections are lists of A/AAAA/HTTPS(hints)/other records incl. nil and malformed addresses; echoed " +
 		"question names in another case; ASNs up to 2^32-1; qclass HS/ANY/NONE/0; DO bit; filtering off per profile/device; rot: the " +
 		"log directory is missing, then renamed away and back under concurrent writers. esc: byte strings (controls, quotes, <>&, U+2028/9, every kind of invalid UTF-8) through encoding/json " +
@@ -67,13 +67,17 @@ func main() {
 	hlib.Must(err)
 	defer func() { _ = os.RemoveAll(tmpDir) }()
 
-	escCampaign(o, r, m)
-	fsCampaign(o, r, m)
-	concCampaign(o, r, m)
-	rotCampaign(o, r, m)
-	stackCampaign(o, r, m)
-	cstackCampaign(o, r, m)
-	provCampaign(o, r, m)
+	// VERIF_C15_ONLY=<campaign> runs one campaign (a debugging aid).
+	only := os.Getenv("VERIF_C15_ONLY")
+	for _, c := range []struct {
+		name string
+		f    func(*hlib.Opts, *hlib.Result, *hlib.Model)
+	}{{"esc", escCampaign}, {"fs", fsCampaign}, {"conc", concCampaign}, {"rot", rotCampaign}, {"full", fullCampaign},
+		{"stack", stackCampaign}, {"cstack", cstackCampaign}, {"prov", provCampaign}, {"wired", wiredCampaign}} {
+		if only == "" || only == c.name {
+			c.f(o, r, m)
+		}
+	}
 
 	r.ModelOps = len(m.Log)
 	r.Finish()
@@ -787,7 +791,7 @@ func concCampaign(o *hlib.Opts, r *hlib.Result, m *hlib.Model) {
 		}
 		data, err := os.ReadFile(path)
 		hlib.Must(err)
-		checkConcFile(r, m, rng, "conc", c, entries, make([]bool, total), data, replay)
+		checkConcFile(r, m, rng, "conc", c, entries, make([]bool, total), nil, data, replay)
 		r.Count(fmt.Sprintf("conc.goroutines_%d", g))
 	}
 }
@@ -836,7 +840,7 @@ func runWriters(ctx context.Context, fs *querylog.FileSystem, entries []*querylo
 // concurrent campaigns: data must consist of exactly one intact line for every
 // write that did not fail, and equal the model's file for a schedule with the
 // observed append order (and the observed failures).
-func checkConcFile(r *hlib.Result, m *hlib.Model, rng *rand.Rand, camp string, c int, entries []*querylog.Entry, failed []bool,
+func checkConcFile(r *hlib.Result, m *hlib.Model, rng *rand.Rand, camp string, c int, entries []*querylog.Entry, failed, wfail []bool,
 	data []byte, replay map[string]any) {
 	total := 0
 	for _, f := range failed {
@@ -910,7 +914,14 @@ func checkConcFile(r *hlib.Result, m *hlib.Model, rng *rand.Rand, camp string, c
 		}
 		lines = append(lines, "fsw "+rn+" "+entryTokens(e, e.Elapsed.Milliseconds()))
 	}
-	lines = append(lines, schedule(rng, len(entries), order, failed)...)
+	openFailed := failed
+	if wfail != nil {
+		openFailed = make([]bool, len(failed))
+		for i := range failed {
+			openFailed[i] = failed[i] && !wfail[i]
+		}
+	}
+	lines = append(lines, schedule(rng, len(entries), order, openFailed, wfail)...)
 	lines = append(lines, "fsfile")
 	answers := m.Batch(lines)
 	if got := unhx(answers[len(answers)-1]); !bytes.Equal(got, data) {
@@ -1007,7 +1018,7 @@ func rotCampaign(o *hlib.Opts, r *hlib.Result, m *hlib.Model) {
 		}
 		data, err := os.ReadFile(path)
 		hlib.Must(err)
-		checkConcFile(r, m, rng, "rot", c, entries, failed, data, replay)
+		checkConcFile(r, m, rng, "rot", c, entries, failed, nil, data, replay)
 		r.Count("rot.failed_writes_" + map[bool]string{true: "only_initial", false: "also_during_rotation"}[nf == nFail])
 		_ = os.RemoveAll(dir)
 	}
@@ -1015,7 +1026,9 @@ func rotCampaign(o *hlib.Opts, r *hlib.Result, m *hlib.Model) {
 
 // schedule returns fsstep lines: a random interleaving of the five steps of
 // each writer in which the appends (the step from pc 3) happen in order.
-func schedule(rng *rand.Rand, n int, order []int, failed []bool) (lines []string) {
+// wfail (may be nil) marks the writers whose write(2) failed after a successful
+// open; failed marks the ones whose open failed.
+func schedule(rng *rand.Rand, n int, order []int, failed, wfail []bool) (lines []string) {
 	pc := make([]int, n)
 	buf := make([]int, n)
 	var free []int
@@ -1037,7 +1050,8 @@ func schedule(rng *rand.Rand, n int, order []int, failed []bool) (lines []string
 				}
 			}
 		}
-		if pc[i] == 3 && order[next] != i {
+		wf := wfail != nil && wfail[i]
+		if pc[i] == 3 && !wf && order[next] != i {
 			continue
 		}
 		choice := "-"
@@ -1063,13 +1077,19 @@ func schedule(rng *rand.Rand, n int, order []int, failed []bool) (lines []string
 				pc[i] = 5
 			}
 		case 3:
-			next++
-		case 4, 6:
+			if wf {
+				// write(2) fails: state 8, then the deferred Put of the dirty buffer.
+				choice = fmt.Sprint(rng.IntN(3))
+				pc[i] = 7
+			} else {
+				next++
+			}
+		case 4, 6, 8:
 			free = append(free, buf[i])
 		}
 		pc[i]++
 		lines = append(lines, fmt.Sprintf("fsstep %d %s", i, choice))
-		if pc[i] == 5 || pc[i] == 7 {
+		if pc[i] == 5 || pc[i] == 7 || pc[i] == 9 {
 			active = append(active[:k], active[k+1:]...)
 		}
 	}
